@@ -31,7 +31,6 @@ Proof.
   intros I H. simpl in H.
   destruct (glock s) eqn:Egl; [discriminate|].
   destruct (nth_error (thr s) i) as [[]|] eqn:E; try discriminate.
-  destruct (reg s) eqn:Ereg; [|discriminate].
   open_inv I. inversion H; subst s'; clear H. inv_case HT HS.
 Qed.
 
@@ -39,9 +38,10 @@ Lemma inv_psd2 s i s' : Inv s -> step true s (LPsd2 i) = Some s' -> Inv s'.
 Proof.
   intros I H. simpl in H.
   destruct (nth_error (thr s) i) as [[]|] eqn:E; try discriminate.
-  open_inv I. inversion H; subst s'; clear H.
+  open_inv I. nth_facts E. simpl in *. inversion H; subst s'; clear H.
   pose proof (nth_na_other on_task _ _ _ E eq_refl) as E2.
   pose proof (nth_na_other on_avail _ _ _ E2 eq_refl) as E3.
+  destruct (glock s) eqn:Egl; [|exfalso; simpl in *; lia].
   inv_case HT HS.
 Qed.
 
